@@ -18,16 +18,19 @@ Section Sound2.
   Proof. intros a d. rewrite qsum_scale, (qsum_wsum rho rhoc). reflexivity. Qed.
 
   (* ---------- the Number / tidy / plain insertion of a product ---------- *)
-  Lemma s_add_product : forall st cn cd term st' cv, x_add_product G st cn cd term = Ok st' -> sinv st ->
+  Lemma s_add_product : forall fl st cn cd term st' cv, x_add_product G fl st cn cd term = Ok st' -> sinv st ->
     (forall x, cn = Ok x -> qi_eq (qval x) cv) -> (forall x, cd = Ok x -> qi_eq (qval x) cv) ->
     sinv st' /\ qi_eq (sval st') (qi_add (sval st) (qi_mul cv (den term))).
   Proof.
-    intros st cn cd term st' cv H I Hn Hd.
-    assert (GEN : (do c <- cd; x_cdat G st c term) = Ok st' ->
+    intros fl st cn cd term st' cv H I Hn Hd.
+    assert (GEN : (if fl then do c <- cd; x_cdat G st c term else x_dat G st cd term) = Ok st' ->
               sinv st' /\ qi_eq (sval st') (qi_add (sval st) (qi_mul cv (den term)))).
-    { intros E. apply bind_ok in E. destruct E as (c0 & Ec & E).
-      destruct (s_cdat rho rhoc _ _ _ _ E I) as [I' V]. split; [exact I'|].
-      rewrite V, (Hd c0 Ec). reflexivity. }
+    { intros E. destruct fl.
+      - apply bind_ok in E. destruct E as (c0 & Ec & E).
+        destruct (s_cdat rho rhoc _ _ _ _ E I) as [I' V]. split; [exact I'|].
+        rewrite V, (Hd c0 Ec). reflexivity.
+      - destruct (s_dat rho rhoc _ _ _ _ E I) as (x & Ex & _ & I' & V). split; [exact I'|].
+        rewrite V, (Hd x Ex). reflexivity. }
     destruct term; try (apply GEN; exact H).
     - cbn [x_add_product] in H. destruct (s_addnum rho rhoc _ _ _ H I) as (x & Ex & _ & I' & V). split; [exact I'|].
       apply bind_ok in Ex. destruct Ex as (c0 & Ec & Ex). cbn [o_mulnum guarded_ops] in Ex.
@@ -42,10 +45,10 @@ Section Sound2.
   Qed.
 
   (* ---------- mul_expand_two ---------- *)
-  Lemma s_mul_add_add : forall st m ca da cb db st', x_mul_add_add G st m ca da cb db = Ok st' -> sinv st ->
+  Lemma s_mul_add_add : forall fl st m ca da cb db st', x_mul_add_add G fl st m ca da cb db = Ok st' -> sinv st ->
     sinv st' /\ qi_eq (sval st') (qi_add (sval st) (qi_mul (qval m) (qi_mul (den (EAdd ca da)) (den (EAdd cb db))))).
   Proof.
-    intros st m ca da cb db st' H I. unfold x_mul_add_add in H.
+    intros fl st m ca da cb db st' H I. unfold x_mul_add_add in H.
     apply bind_ok in H. destruct H as (st0 & E0 & H).
     destruct (s_addnum rho rhoc _ _ _ E0 I) as (x0 & Ex0 & _ & I0 & V0).
     apply bind_ok in Ex0. destruct Ex0 as (cc & Ecc & Ex0). cbn [o_mulnum guarded_ops] in Ecc, Ex0.
@@ -57,7 +60,7 @@ Section Sound2.
     assert (OUT : forall s p s', In p da ->
               (do temp <- o_mulnum G (snd p) m;
                do s'' <- fold_res (fun s q => do term <- o_mul G (fst p) (fst q);
-                                              let tq := o_mulnum G temp (snd q) in x_add_product G s tq tq term) db s;
+                                              let tq := o_mulnum G temp (snd q) in x_add_product G fl s tq tq term) db s;
                x_dat G s'' (o_mulnum G cb temp) (fst p)) = Ok s' -> sinv s ->
               sinv s' /\ qi_eq (sval s') (qi_add (sval s)
                 (qi_mul (qi_mul (qval m) (qi_add (W db) (qval cb))) (qi_mul (qval (snd p)) (den (fst p)))))).
@@ -66,14 +69,14 @@ Section Sound2.
       apply bind_ok in E. destruct E as (s2 & E2 & E).
       assert (INN : forall s q s', In q db ->
                 (do term <- o_mul G (fst p) (fst q);
-                 let tq := o_mulnum G temp (snd q) in x_add_product G s tq tq term) = Ok s' -> sinv s ->
+                 let tq := o_mulnum G temp (snd q) in x_add_product G fl s tq tq term) = Ok s' -> sinv s ->
                 sinv s' /\ qi_eq (sval s') (qi_add (sval s)
                   (qi_mul (qi_mul (qval temp) (den (fst p))) (qi_mul (qval (snd q)) (den (fst q)))))).
       { intros s3 q s4 _ E3 I3. apply bind_ok in E3. destruct E3 as (term & Em & E3). cbn [o_mul guarded_ops] in Em.
         destruct (c_mul rho rhoc _ _ _ Em) as [Vm _]. cbv zeta in E3.
         assert (CV : forall x, o_mulnum G temp (snd q) = Ok x -> qi_eq (qval x) (qi_mul (qval temp) (qval (snd q)))).
         { intros x Ex. cbn [o_mulnum guarded_ops] in Ex. destruct (c_mulnum _ _ _ Ex) as (_ & _ & _ & Vx). exact Vx. }
-        destruct (s_add_product _ _ _ _ _ _ E3 I3 CV CV) as [I4 V4]. split; [exact I4|]. rewrite V4, Vm. ring. }
+        destruct (s_add_product _ _ _ _ _ _ _ E3 I3 CV CV) as [I4 V4]. split; [exact I4|]. rewrite V4, Vm. ring. }
       destruct (fold_sound rho rhoc _ _ _ db INN s s2 E2 Is) as [I2 V2].
       destruct (s_dat rho rhoc _ _ _ _ E I2) as (x & Ex & _ & I' & V). split; [exact I'|].
       cbn [o_mulnum guarded_ops] in Ex. destruct (c_mulnum _ _ _ Ex) as (_ & _ & _ & Vx).
@@ -87,16 +90,16 @@ Section Sound2.
     rewrite V2, V1, V0, !qsum_lin, Vx0, Vcc, Vt', !denote_EAdd. ring.
   Qed.
 
-  Lemma s_mul_other_add : forall st m a cb db st', x_mul_other_add G st m a cb db = Ok st' -> sinv st ->
+  Lemma s_mul_other_add : forall fl st m a cb db st', x_mul_other_add G fl st m a cb db = Ok st' -> sinv st ->
     sinv st' /\ qi_eq (sval st') (qi_add (sval st) (qi_mul (qval m) (qi_mul (den a) (den (EAdd cb db))))).
   Proof.
-    intros st m a cb db st' H I. unfold x_mul_other_add in H.
+    intros fl st m a cb db st' H I. unfold x_mul_other_add in H.
     apply bind_ok in H. destruct H as (acoef & Ea & H). cbn [o_mulnum guarded_ops] in Ea.
     destruct (c_mulnum _ _ _ Ea) as (_ & _ & _ & Va).
     apply bind_ok in H. destruct H as (st1 & E1 & H).
     assert (STEP : forall s q s', In q db ->
               (do term <- o_mul G (snd (as_coef_term a)) (fst q);
-               x_add_product G s (o_mulnum G (snd q) acoef) (o_mulnum G acoef (snd q)) term) = Ok s' -> sinv s ->
+               x_add_product G fl s (o_mulnum G (snd q) acoef) (o_mulnum G acoef (snd q)) term) = Ok s' -> sinv s ->
               sinv s' /\ qi_eq (sval s') (qi_add (sval s)
                 (qi_mul (qi_mul (qval acoef) (den (snd (as_coef_term a)))) (qi_mul (qval (snd q)) (den (fst q)))))).
     { intros s q s' _ E Is. apply bind_ok in E. destruct E as (term & Em & E). cbn [o_mul guarded_ops] in Em.
@@ -105,7 +108,7 @@ Section Sound2.
       { intros x Ex. cbn [o_mulnum guarded_ops] in Ex. destruct (c_mulnum _ _ _ Ex) as (_ & _ & _ & Vx). rewrite Vx. ring. }
       assert (CD : forall x, o_mulnum G acoef (snd q) = Ok x -> qi_eq (qval x) (qi_mul (qval acoef) (qval (snd q)))).
       { intros x Ex. cbn [o_mulnum guarded_ops] in Ex. destruct (c_mulnum _ _ _ Ex) as (_ & _ & _ & Vx). exact Vx. }
-      destruct (s_add_product _ _ _ _ _ _ E Is CN CD) as [I4 V4]. split; [exact I4|]. rewrite V4, Vm. ring. }
+      destruct (s_add_product _ _ _ _ _ _ _ E Is CN CD) as [I4 V4]. split; [exact I4|]. rewrite V4, Vm. ring. }
     destruct (fold_sound rho rhoc _ _ _ db STEP st st1 E1 I) as [I1 V1].
     pose proof (den_as_coef_term rho rhoc a) as DA.
     destruct (expr_eqb (snd (as_coef_term a)) e_one) eqn:E.
@@ -119,35 +122,35 @@ Section Sound2.
   Qed.
 
   Definition is_add (e : expr) : bool := match e with EAdd _ _ => true | _ => false end.
-  Lemma x_mul_expand_two_unfold : forall O st m a b,
-    x_mul_expand_two O st m a b =
+  Lemma x_mul_expand_two_unfold : forall O fl st m a b,
+    x_mul_expand_two O fl st m a b =
     match a, b with
-    | EAdd ca da, EAdd cb db => x_mul_add_add O st m ca da cb db
-    | EAdd ca da, _ => x_mul_other_add O st m b ca da
-    | _, EAdd cb db => x_mul_other_add O st m a cb db
+    | EAdd ca da, EAdd cb db => x_mul_add_add O fl st m ca da cb db
+    | EAdd ca da, _ => x_mul_other_add O fl st m b ca da
+    | _, EAdd cb db => x_mul_other_add O fl st m a cb db
     | _, _ => do mm <- o_mul O a b; x_cdat O st m mm
     end.
   Proof. reflexivity. Qed.
 
-  Lemma s_mul_expand_two : forall st m a b st', x_mul_expand_two G st m a b = Ok st' -> sinv st ->
+  Lemma s_mul_expand_two : forall fl st m a b st', x_mul_expand_two G fl st m a b = Ok st' -> sinv st ->
     sinv st' /\ qi_eq (sval st') (qi_add (sval st) (qi_mul (qval m) (qi_mul (den a) (den b)))).
   Proof.
-    intros st m a b st' H I.
+    intros fl st m a b st' H I.
     assert (PLAIN : (do mm <- o_mul G a b; x_cdat G st m mm) = Ok st' ->
               sinv st' /\ qi_eq (sval st') (qi_add (sval st) (qi_mul (qval m) (qi_mul (den a) (den b))))).
     { intros E. apply bind_ok in E. destruct E as (mm & Em & E). cbn [o_mul guarded_ops] in Em.
       destruct (c_mul rho rhoc _ _ _ Em) as [Vm _]. destruct (s_cdat rho rhoc _ _ _ _ E I) as [I' V].
       split; [exact I'|]. rewrite V, Vm. reflexivity. }
-    assert (RIGHT : forall cb db, b = EAdd cb db -> x_mul_other_add G st m a cb db = Ok st' ->
+    assert (RIGHT : forall cb db, b = EAdd cb db -> x_mul_other_add G fl st m a cb db = Ok st' ->
               sinv st' /\ qi_eq (sval st') (qi_add (sval st) (qi_mul (qval m) (qi_mul (den a) (den b))))).
-    { intros cb db -> E. exact (s_mul_other_add _ _ _ _ _ _ E I). }
-    assert (LEFT : forall ca da, a = EAdd ca da -> x_mul_other_add G st m b ca da = Ok st' ->
+    { intros cb db -> E. exact (s_mul_other_add _ _ _ _ _ _ _ E I). }
+    assert (LEFT : forall ca da, a = EAdd ca da -> x_mul_other_add G fl st m b ca da = Ok st' ->
               sinv st' /\ qi_eq (sval st') (qi_add (sval st) (qi_mul (qval m) (qi_mul (den a) (den b))))).
-    { intros ca da -> E. destruct (s_mul_other_add _ _ _ _ _ _ E I) as [I' V]. split; [exact I'|]. rewrite V. ring. }
+    { intros ca da -> E. destruct (s_mul_other_add _ _ _ _ _ _ _ E I) as [I' V]. split; [exact I'|]. rewrite V. ring. }
     rewrite x_mul_expand_two_unfold in H.
     destruct a; destruct b;
       first [ exact (PLAIN H) | exact (RIGHT _ _ eq_refl H) | exact (LEFT _ _ eq_refl H)
-            | exact (s_mul_add_add _ _ _ _ _ _ _ H I) ].
+            | exact (s_mul_add_add _ _ _ _ _ _ _ _ H I) ].
   Qed.
 
   (* ---------- square_expand ---------- *)
